@@ -36,9 +36,9 @@ package compare
 //@   ensures mathorder.uint64[C15,C01,C05]: typeis(b, uint64) && !typeis(b, T) && spec.exact(a) && spec.exact(b) ==> result == spec.sgn3(spec.val(a), spec.val(b))
 //@   ensures mathorder.float32[C15,C01,C05]: typeis(b, float32) && !typeis(b, T) && spec.exact(a) && spec.exact(b) ==> result == spec.sgn3(spec.val(a), spec.val(b))
 //@   ensures mathorder.float64[C15,C01,C05]: typeis(b, float64) && !typeis(b, T) && spec.exact(a) && spec.exact(b) ==> result == spec.sgn3(spec.val(a), spec.val(b))
-//@   ensures same-type.lt[C15,C01,C05]: typeis(b, T) && a < b.(T) ==> result == -1
-//@   ensures same-type.eq[C15,C01,C05]: typeis(b, T) && a <= b.(T) && a >= b.(T) ==> result == 0
-//@   ensures same-type.gt[C15,C01,C05]: typeis(b, T) && a > b.(T) ==> result == 1
+//@   ensures same-type.lt[C15,C01,C05,C02,C03,C04]: typeis(b, T) && a < b.(T) ==> result == -1
+//@   ensures same-type.eq[C15,C01,C05,C02,C03,C04]: typeis(b, T) && a <= b.(T) && a >= b.(T) ==> result == 0
+//@   ensures same-type.gt[C15,C01,C05,C02,C03,C04]: typeis(b, T) && a > b.(T) ==> result == 1
 //@   ensures mathorder.same.lt[C15,C01,C05]: typeis(b, T) && spec.exact(a) && spec.exact(b) && spec.sgn3(spec.val(a), spec.val(b)) == -1 ==> result == -1
 //@   ensures mathorder.same.eq[C15,C01,C05]: typeis(b, T) && spec.exact(a) && spec.exact(b) && spec.sgn3(spec.val(a), spec.val(b)) == 0 ==> result == 0
 //@   ensures mathorder.same.gt[C15,C01,C05]: typeis(b, T) && spec.exact(a) && spec.exact(b) && spec.sgn3(spec.val(a), spec.val(b)) == 1 ==> result == 1
